@@ -233,6 +233,55 @@ func TestC04TimerList(t *testing.T) {
 			}
 		})
 	}
+	// third family: a long ladder. 40 entries one second apart, armed in order, reversed and interleaved, then ONE sweep
+	// at each of several instants (a sweeper that fell behind): everything due must be reported by that one sweep.
+	for _, impl := range []struct {
+		name string
+		mk   func() expiration.List
+	}{{"pqlist", expiration.VerifNewPQList}, {"skiplist", expiration.VerifNewSkipList}} {
+		for oi, order := range []string{"ascending", "descending", "odd-then-even"} {
+			for _, sw := range []time.Duration{10500 * time.Millisecond, 25500 * time.Millisecond, 60 * time.Second} {
+				var idx []int
+				switch oi {
+				case 0:
+					for k := 0; k < 40; k++ {
+						idx = append(idx, k)
+					}
+				case 1:
+					for k := 39; k >= 0; k-- {
+						idx = append(idx, k)
+					}
+				default:
+					for k := 1; k < 40; k += 2 {
+						idx = append(idx, k)
+					}
+					for k := 0; k < 40; k += 2 {
+						idx = append(idx, k)
+					}
+				}
+				desc := map[string]any{"list": impl.name, "ops": []string{fmt.Sprintf("40 entries at T+0..39s armed %s", order), fmt.Sprintf("Expire(T%+v)", sw)}}
+				if wanted != nil && !replayMatch(wanted, desc) {
+					continue
+				}
+				orderCases++
+				l := impl.mk()
+				for _, k := range idx {
+					l.Insert(k, T.Add(time.Duration(k)*time.Second))
+				}
+				got := map[int]int{}
+				for _, g := range l.Expire(T.Add(sw)) {
+					got[g.(int)]++
+				}
+				for k := 0; k < 40; k++ {
+					due := sw-time.Duration(k)*time.Second > time.Second
+					if due && got[k] != 1 {
+						rep.Violate(vk.Violation{Sig: impl.name + ":c04-list-overdue-not-reported", Msg: fmt.Sprintf("[%s] 40 entries one second apart (armed %s), one sweep at T%+v: entry k%d (due since T+%ds) was reported %d time(s)", impl.name, order, sw, k, k, got[k]), Replay: desc})
+						break
+					}
+				}
+			}
+		}
+	}
 	rep.Extra["arrival_order_cases"] = orderCases
 	rep.Floor("arrival_orders", 1000, orderCases)
 	rep.Bounds["arrival_orders"] = "every order of 6 and 7 deadlines in distinct seconds (T+0,1,3,7,10,11,14 s) x one sweep at 8 instants, fresh list each"
